@@ -90,6 +90,7 @@ struct fm_shape_info {
   X(i64,  fm_cmpmask_const, (int i)) \
   X(int,  fm_cmpmask_count, (void)) \
   X(void, fm_seq_conv,      (int type, i64 a, i64 b, u64* r1, u64* r2)) \
+  X(void, fm_seq_un,        (int op, i64 a, i64 b, i64* r1, i64* r2)) \
   X(i64,  fm_seq_compound,  (int op1, int op2, i64 a, i64 b, i64 c)) \
   X(i64,  fm_early,         (int idx, int now)) \
   X(int,  fm_early_count,   (void)) \
